@@ -111,21 +111,14 @@ func (c *clsGen) self(static bool) string {
 	return "this.constructor"
 }
 
-// privUses: expressions over a private field/accessor R.#N (R is the receiver text).
-func (c *clsGen) privUse(r, n string, accessor bool) string {
+// privUse: an expression over a private field / accessor R.#N (R is the receiver text). mode "rw": any
+// use; "r": the member can only be read (getter without setter); "w": it can only be written. V8 rejects
+// a read-modify-write of a half accessor before it calls the existing half, the specification (and the
+// lowered code) after; half accessors are therefore only used in the direction they support.
+func (c *clsGen) privUse(r, n string, mode string) string {
 	f := r + ".#" + n
-	alts := []string{
+	reads := []string{
 		f,
-		f + "++",
-		"++" + f,
-		f + " += 2",
-		f + " ??= " + c.probe("5"),
-		f + " ||= " + c.probe("6"),
-		f + " &&= " + c.probe("7"),
-		f + " **= 2",
-		"([" + f + "] = [" + c.probe("8") + "], " + f + ")",
-		"({ a: " + f + " } = { a: " + c.probe("9") + " }, " + f + ")",
-		"({ a: " + f + ", ..." + r + ".rst } = { a: 1, b: 2 }, [" + f + ", " + r + ".rst])",
 		"#" + n + " in " + r,
 		"#" + n + " in " + c.probe("{}"),
 		r + "?.#" + n,
@@ -134,17 +127,44 @@ func (c *clsGen) privUse(r, n string, accessor bool) string {
 		f + "?.toFixed?.(1)",
 		"typeof " + f,
 		"`${" + f + "}`",
-		"(" + f + " = " + c.probe("10") + ")",
-		"[" + f + "--, " + f + "]",
-		"(function () { for (" + f + " of [11, 12]); return " + f + "; }).call(" + r + ")",
-		"[" + f + ", " + f + " = 13, " + f + "]",
 		"((a = " + f + ") => a)()",
 	}
+	loopTarget := "(function () { for (" + f + " of [11, 12]); return 1; }).call(" + r + ")"
 	if strings.HasPrefix(r, "this") {
-		// `this` inside the nested plain function above must stay the receiver
-		alts[21] = "(() => { for (" + f + " of [11, 12]); return " + f + "; })()"
+		// `this` inside a nested plain function would not be the receiver
+		loopTarget = "(() => { for (" + f + " of [11, 12]); return 1; })()"
 	}
-	_ = accessor
+	writes := []string{
+		"(" + f + " = " + c.probe("10") + ")",
+		"([" + f + "] = [" + c.probe("8") + "], 1)",
+		"({ a: " + f + " } = { a: " + c.probe("9") + " }, 1)",
+		"({ a: " + f + ", ..." + r + ".rst } = { a: 1, b: 2 }, " + r + ".rst)",
+		loopTarget,
+		"#" + n + " in " + r,
+	}
+	both := []string{
+		f + "++",
+		"++" + f,
+		f + " += 2",
+		f + " ??= " + c.probe("5"),
+		f + " ||= " + c.probe("6"),
+		f + " &&= " + c.probe("7"),
+		f + " **= 2",
+		"[" + f + "--, " + f + "]",
+		"[" + f + ", " + f + " = 13, " + f + "]",
+		"([" + f + "] = [" + c.probe("8") + "], " + f + ")",
+		"({ a: " + f + " } = { a: " + c.probe("9") + " }, " + f + ")",
+		"[" + loopTarget + ", " + f + "]",
+	}
+	var alts []string
+	switch mode {
+	case "r":
+		alts = reads
+	case "w":
+		alts = writes
+	default:
+		alts = append(append(append(alts, reads...), writes...), both...)
+	}
 	return alts[c.n("privuse", len(alts))]
 }
 
@@ -222,7 +242,7 @@ func (c *clsGen) ctxExpr(static bool) string {
 	}
 	if !static {
 		for _, n := range c.privInst {
-			alts = append(alts, c.privUse("this", n, false))
+			alts = append(alts, c.privUse("this", n, "rw"))
 		}
 	}
 	e := alts[c.n("ctxexpr", len(alts))]
@@ -305,7 +325,7 @@ func (c *clsGen) feature() {
 	switch kind {
 	case 0, 1: // private field
 		n := c.fresh("x")
-		init, _ := "i", ""
+		init := "i"
 		if c.chance("privinit", 40) {
 			init = c.ctxExpr(static)
 		}
@@ -316,7 +336,7 @@ func (c *clsGen) feature() {
 			c.tag("member:private-field")
 		}
 		for k := 0; k <= c.n("nuses", 2); k++ {
-			c.addTestMethod(static, c.privUse(recv(), n, false))
+			c.addTestMethod(static, c.privUse(recv(), n, "rw"))
 		}
 		if !static {
 			c.privInst = append(c.privInst, n)
@@ -371,8 +391,15 @@ func (c *clsGen) feature() {
 		if which == 2 {
 			c.tag("member:private-getter-only")
 		}
+		mode := "rw"
+		if which == 1 {
+			mode = "w"
+		}
+		if which == 2 {
+			mode = "r"
+		}
 		for k := 0; k <= c.n("nuses", 2); k++ {
-			c.addTestMethod(static, c.privUse(recv(), n, true))
+			c.addTestMethod(static, c.privUse(recv(), n, mode))
 		}
 	case 6, 7: // public field with an initialiser
 		n := c.fresh("f")
